@@ -276,7 +276,7 @@ def _cut(c):
     return any(e[i] + w / 2 > e[i + 1] - (e[i + 1] - e[i]) * c['fn'] / c['fd'] for i in range(len(e) - 1))
 
 
-FACTORS = {(1, 3): 1 / 3, (1, 4): 0.25, (1, 2): 0.5, (1, 6): 1 / 6, (0, 1): 0.0, (5, 12): 5 / 12}
+FACTORS = {(1, 3): 1 / 3, (1, 4): 0.25, (1, 2): 0.5, (1, 6): 1 / 6, (0, 1): 0.0, (5, 12): 5 / 12, (3, 4): 0.75}
 
 
 def _windows_part(ctx, events, wcases, tiny, variants, recipes):
@@ -307,7 +307,8 @@ def _windows_part(ctx, events, wcases, tiny, variants, recipes):
         # all single-estimate configurations + a stratified sample of the rest
         single = [c for c in wcases if len(c['cfg']['ests']) == 1]
         multi = [c for c in wcases if len(c['cfg']['ests']) > 1]
-        wcases = single + rng.sample(multi, 500)
+        big = [c for c in multi if (c['cfg']['fn'], c['cfg']['fd']) == (3, 4)]     # separation factor beyond one half
+        wcases = single + rng.sample(multi, 500) + rng.sample(big, min(len(big), 150))
         tiny = rng.sample(tiny, 80)
     else:
         wcases = rng.sample(wcases, 9000)
